@@ -46,6 +46,9 @@ T15 = ["string", "varint", "datetime", "uint16", "uint32", "float", "bytes", "bo
        "datetime[]", "path", "net.ipaddress", "digest", "uri", "filesize", "dynamic"]
 TN = ["test/a", "test/b", "t/x", "other/name", "a"]
 RESERVED = ["_source", "_classification", "_generated", "_version"]
+# attributes of the GroupedRecord object itself: a member field of such a name is served by _asdict() (fix 619dd93) but not
+# by attribute access on the group (`group.name` is the group's type name: public API, recorded limitation)
+GROUP_OWN = ["name", "records", "descriptors", "flat_fields", "fieldname_to_record", "_desc"]
 
 
 def EXHAUSTIVE(tier):
@@ -122,9 +125,17 @@ def gen_cases(rng, tier):
                 members.append(["grouped", r.choice(TN), [_gen_rec(r) for _ in range(r.randint(1, 3))]])
             else:
                 members.append(_gen_rec(r))
+        if r.chance(30):
+            # a member field spelled like an attribute of the group object
+            tgt = r.choice([m_ for m_ in members if m_[0] == "rec"] or [None])
+            if tgt is not None and tgt[1][1]:
+                j_ = r.below(len(tgt[1][1]))
+                nn = r.choice(["name", "records", "descriptors", "flat_fields"])
+                if nn not in [f_[1] for f_ in tgt[1][1]]:
+                    tgt[1] = [tgt[1][0], [list(f_) if i_ != j_ else [f_[0], nn] for i_, f_ in enumerate(tgt[1][1])]]
         flat = _flatten(members)
         probe = None
-        cand = [(t, fn) for m_ in flat for t, fn in m_[1][1]]
+        cand = [(t, fn) for m_ in flat for t, fn in m_[1][1] if fn not in GROUP_OWN]
         if cand and r.chance(70):
             t, fn = r.choice(cand)
             first_t = next(tt for m_ in flat for tt, ff in m_[1][1] if ff == fn)
@@ -484,6 +495,8 @@ def oracle(case, obs):
         vals = ref_values(ins, False)
         for kk, v in zip(obs["keys"], obs["values"]):
             w = [vals[kk]] if kk in vals else None
+            if kk in GROUP_OWN:
+                continue            # attribute access on the group serves its own attribute (see GROUP_OWN)
             if v != w:
                 return f"grouped.{kk} is {json.dumps(v)[:70]} instead of the first member's {json.dumps(w)[:70]}"
         if "asdict" in obs:
@@ -699,8 +712,20 @@ def compare(case, obs, m):
         if got != obs["output"]["fields"]:
             return f"flat fields: model {got} vs implementation {obs['output']['fields']}"
         mv = [None if v is None else [tk.obs(v[0])] for v in m["values"]]
-        if mv != obs["values"]:
+        if [x for kk, x in zip(obs["keys"], mv) if kk not in GROUP_OWN] != \
+                [x for kk, x in zip(obs["keys"], obs["values"]) if kk not in GROUP_OWN]:
             return "grouped attribute values differ"
+        if isinstance(obs.get("asdict"), list) and "asdict" in m:
+            got = dict((kk, v) for kk, v in obs["asdict"])
+            for kk, mvv in zip(obs["keys"], m["asdict"]):
+                if mvv is None:
+                    if kk in got:
+                        return f"grouped._asdict() holds {kk}, the model's view does not"
+                    continue
+                if mvv[0] == "<own attribute of the group>":
+                    return f"model: _asdict()[{kk}] would be the group object's own attribute"
+                if kk not in got or tk.obs(mvv[0]) != got[kk]:
+                    return f"grouped._asdict()[{kk}]: model {json.dumps(tk.obs(mvv[0]))[:80]} vs implementation {json.dumps(got.get(kk))[:80]}"
         return None
     if k == "replace":
         if m["ok"] != obs["ok"]:
